@@ -32,6 +32,28 @@ def G(name, *edits):
 
 
 VARIANTS = [
+    # ------------------------------------------------------------------ round 4: R01e, R04i
+    B("C01 revert F45: literal returned for an int subclass", "C01", "R01e",
+      (TRANS, "                    return t(1)", "                    return 1")),
+    B("C01 revert F45: datetime.time() for a time subclass", "C01", "R01e",
+      (TRANS, "                return t(data.hour, data.minute, data.second, data.microsecond, fold=data.fold)",
+       "                return data.time()")),
+    B("C01 revert F45: sign times a timedelta subclass", "C01", "R01e",
+      (TRANS, """                kw_ = {k: sign * float(v) for k, v in kw.items() if v is not None}
+                return t(**kw_)""", """                kw_ = {k: float(v) for k, v in kw.items() if v is not None}
+                return sign * t(**kw_)""")),
+    B("C01 date converter opened to subclasses keeps data.date()", "C01", "R01e",
+      (TRANS, """    @registry.register(
+        date, allow_subclasses=False
+    )""", """    @registry.register(date)""")),
+    B("C04 revert F46: EmailStr separator written as a range", "C04", "R04i",
+      ("utype/types.py", "([A-Za-z0-9]+[._-])*", "([A-Za-z0-9]+[.-_])*")),
+    B("C04 nested quantifier in the ISO duration pattern", "C04", "R04i",
+      (TRANS, 'r"(?:(?P<days>\\d+(.\\d+)?)D)?"', 'r"(?:(?P<days>(\\d+)+(.\\d+)?)D)?"')),
+    G("benign C04: duration digits written as a class",
+      (TRANS, 'r"(?:(?P<days>\\d+(.\\d+)?)D)?"', 'r"(?:(?P<days>[0-9]+(.[0-9]+)?)D)?"')),
+    G("benign C01: int converter builds the literal through a local",
+      (TRANS, "                    return t(1)", "                    one = t(1)\n                    return one")),
     # ------------------------------------------------------------------ C04
     B("C04 revert F01: seq handler indexes the input", "C04", "R04c",
       (RULE, "item=i, value=item, type=arg_type, origin_exc=e", "item=i, value=value[i], type=arg_type, origin_exc=e")),
@@ -1025,7 +1047,8 @@ VARIANTS = [
     return list(data)""", """def from_set(data):
     return [item for item in data]""")),
     G("benign C14: duration sign applied on the right",
-      (TRANS, "                return sign * t(**kw_)", "                return t(**kw_) * sign")),
+      (TRANS, "kw_ = {k: sign * float(v) for k, v in kw.items() if v is not None}",
+       "kw_ = {k: float(v) * sign for k, v in kw.items() if v is not None}")),
     G("benign C14: offset regex with the signs the other way round",
       (TRANS, r"""offset = re.search(r'( ?)[+-]\d{2}:?\d{2}(:\d{2})?$', str(data))""",
        r"""offset = re.search(r'( ?)[-+]\d{2}:?\d{2}(:\d{2})?$', str(data))""")),
